@@ -22,6 +22,7 @@ import (
 	"github.com/pentops/j5/lib/verifshim/compile"
 	"google.golang.org/protobuf/proto"
 	"google.golang.org/protobuf/reflect/protoreflect"
+	"google.golang.org/protobuf/types/descriptorpb"
 	"google.golang.org/protobuf/types/dynamicpb"
 
 	"verifharness/vh"
@@ -547,11 +548,21 @@ func kindTerm(fd protoreflect.FieldDescriptor) string {
 	case protoreflect.EnumKind:
 		return "KdEnum"
 	case protoreflect.MessageKind:
+		// a message of the unit's package: object or oneof by its (j5.ext.v1.message) option, named
+		// by its path inside the package
+		if md := fd.Message(); md.ParentFile().Package() == "foo.v1" && !md.IsMapEntry() {
+			name := vh.BytesTerm(strings.TrimPrefix(string(md.FullName()), "foo.v1."))
+			if mo, ok := proto.GetExtension(md.Options(), ext_j5pb.E_Message).(*ext_j5pb.MessageOptions); ok && mo != nil {
+				switch mo.Type.(type) {
+				case *ext_j5pb.MessageOptions_Object:
+					return "(KdMsgObject " + name + ")"
+				case *ext_j5pb.MessageOptions_Oneof:
+					return "(KdMsgOneof " + name + ")"
+				}
+			}
+			return "KdOther"
+		}
 		switch fd.Message().FullName() {
-		case "foo.v1.Bar", "foo.v1.Baz":
-			return "KdMsgObject"
-		case "foo.v1.Choice", "foo.v1.Pick":
-			return "KdMsgOneof"
 		case "google.protobuf.Timestamp":
 			return "KdTimestamp"
 		case "j5.types.date.v1.Date":
@@ -581,10 +592,24 @@ func declaredComment(fd protoreflect.Descriptor) string {
 	return strings.Join(lines, "\n")
 }
 
+// optionalKeyword: proto3_optional as the compiler wrote it. protoreflect's
+// HasOptionalKeyword answers false for every repeated field whatever the descriptor says;
+// descriptors linked by protocompile (the j5s text path) give access to the raw
+// FieldDescriptorProto. (In the AST path protodesc.NewFile refuses the flag on a repeated
+// field, so the two agree there.)
+func optionalKeyword(fd protoreflect.FieldDescriptor) bool {
+	if raw, ok := fd.(interface {
+		FieldDescriptorProto() *descriptorpb.FieldDescriptorProto
+	}); ok {
+		return raw.FieldDescriptorProto().GetProto3Optional()
+	}
+	return fd.HasOptionalKeyword()
+}
+
 func foutTerm(fd protoreflect.FieldDescriptor) string {
 	return fmt.Sprintf("(FO %s %s %d %s %s %s %s %s %s %s %s %s)",
 		vh.BytesTerm(fd.JSONName()), vh.BytesTerm(string(fd.Name())), fd.Number(), kindTerm(fd),
-		vh.BoolTerm(fd.IsList() || fd.IsMap()), vh.BoolTerm(fd.HasOptionalKeyword()), vh.BoolTerm(fd.HasPresence()),
+		vh.BoolTerm(fd.IsList() || fd.IsMap()), vh.BoolTerm(optionalKeyword(fd)), vh.BoolTerm(fd.HasPresence()),
 		constraintTerm(fd), extTerm(fd), listTerm(fd), keyTerm(fd), vh.BytesTerm(declaredComment(fd)))
 }
 
